@@ -12,7 +12,11 @@ perturbation of the per-facet margin `t` (the predicate is antitone in `t` for e
 
 Every verdict is `Verdict.yes` / `.no` / `.inconclusive`; `yes`/`no` are only returned after one of
 the checkers of `Model/LinCert.lean` (or `checkEllWitness` / `checkEllSep` below) has accepted a
-certificate.  Soundness theorems: `Props/C10.lean`.
+certificate.  Soundness theorems: `Props/C10.lean`.  For rectangles and balls the verdict functions
+are also *total* on well-formed input (the searches are complete), so they decide the semantic
+predicate: `rect_isCovered_iff`, `rect_band_iff`, `ball_isCovered_iff`, `ball_band_iff` in
+`Props/C10.lean`.  Only general ellipsoids (certificates proposed by the harness) can be
+`inconclusive`.
 
 ## Public API
 
@@ -20,12 +24,17 @@ certificate.  Soundness theorems: `Props/C10.lean`.
                         as is, otherwise `none` = the code's `ValueError`).
 * `rectSys W l1 u1 l2 u2 s t`   — the LP of `RectangularConfidenceRegion.is_covered` in the `2m`
                         unknowns `(z, z')`, rows in the code's order.
-* `rectVerdict W l1 u1 l2 u2 s t` — Fourier–Motzkin on the reduced system in `d = z' − z`
-                        (`rectSysD`), certificate lifted to and *checked against* `rectSys`.
+* `rectVerdictFast W l1 u1 l2 u2 s t` — Fourier–Motzkin (Kohler pruning) on the reduced system in
+                        `d = z' − z` (`rectSysD`), certificate lifted to and *checked against* `rectSys`.
+* `rectVerdict W l1 u1 l2 u2 s t` — `rectVerdictFast`; if that is `inconclusive` (never observed),
+                        the provably complete plain Fourier–Motzkin `feasibleFM` on `rectSys` itself.
+                        Total on well-formed input: `yes ↔ Cov`, `no ↔ ¬Cov` (`Props/C10.lean`).
 * `rectIsCovered W l1 u1 l2 u2 slack` — guard + `rectVerdict … (t = 0)`; `none` = `ValueError`.
 * `coneSys W t`       — the polyhedron `{d | W d ≥ t}`.
 * `ballVerdict W c1 a1 c2 a2 t` — balls (`Σ = I`, radii `a₁, a₂ ≥ 0`): exact KKT projection of
-                        `c₂ − c₁` on `{d | W d ≥ t}`, compared with `(a₁ + a₂)²`.
+                        `c₂ − c₁` on `{d | W d ≥ t}`, compared with `(a₁ + a₂)²`; if no projection is
+                        found, `feasibleC` certifies the polyhedron empty.  Total under the guard
+                        (radii `≥ 0`, equal dimensions, cone rows of that dimension).
 * `ellPoint c L u`    — the point `c + L u` of the ellipsoid `{c + L u | ‖u‖ ≤ a}`
                         (`= {z | ‖Σ^{-1/2}(z − c)‖ ≤ a}` whenever `L Lᵀ = Σ`).
 * `checkEllWitness`, `checkEllSep`, `ellVerdict` — certificate checkers for general ellipsoids.
@@ -100,8 +109,9 @@ def liftFarkas (m : Nat) (y : Vec) : Vec :=
   let yc := y.drop (2 * m)
   yhi ++ ylo ++ ylo ++ yhi ++ yc
 
-/-- Certified answer to "`∃ z ∈ [l₁,u₁], z' ∈ [l₂,u₂] : W (z' − z − s) ≥ t`?" -/
-def rectVerdict (W : Mat) (l1 u1 l2 u2 s t : Vec) : Verdict :=
+/-- Fast path: Fourier–Motzkin with Kohler pruning on the reduced system in `d`, certificate lifted
+to and checked against the full LP `rectSys`. -/
+def rectVerdictFast (W : Mat) (l1 u1 l2 u2 s t : Vec) : Verdict :=
   let m := l1.length
   let full := rectSys W l1 u1 l2 u2 s t
   match solve m (rectSysD W l1 u1 l2 u2 s t) with
@@ -110,6 +120,18 @@ def rectVerdict (W : Mat) (l1 u1 l2 u2 s t : Vec) : Verdict :=
     if checkWitness (2 * m) full (z ++ z') then .yes else .inconclusive
   | .farkas y =>
     if checkFarkas (2 * m) full (liftFarkas m y) then .no else .inconclusive
+
+/-- Certified answer to "`∃ z ∈ [l₁,u₁], z' ∈ [l₂,u₂] : W (z' − z − s) ≥ t`?": the fast path; only if
+that produced no accepted certificate (never observed), the complete search `feasibleFM` on the full
+LP.  Never `inconclusive` on well-formed input (`rect_verdict_total` in `Props/C10.lean`). -/
+def rectVerdict (W : Mat) (l1 u1 l2 u2 s t : Vec) : Verdict :=
+  match rectVerdictFast W l1 u1 l2 u2 s t with
+  | .inconclusive =>
+    match feasibleFM (2 * l1.length) (rectSys W l1 u1 l2 u2 s t) with
+    | some true => .yes
+    | some false => .no
+    | none => .inconclusive
+  | v => v
 
 /-- `RectangularConfidenceRegion.is_covered`: guard on the slack size (against the number of
 columns of `W`), then feasibility with `t = 0`.  `none` = `ValueError`. -/
@@ -129,7 +151,8 @@ def coneSys (W : Mat) (t : Vec) : Sys := List.zipWith (fun w ti => ⟨w, ti⟩) 
 
 /-- Balls `B(c₁, a₁)`, `B(c₂, a₂)` (the PaVeBa case `Σ = I`): covered iff the squared distance of
 `c₂ − c₁` to `{d | W d ≥ t}` is at most `(a₁ + a₂)²`; the nearest point comes with a checked KKT
-certificate.  If the polyhedron is certified empty the answer is `no`. -/
+certificate.  If the polyhedron is certified empty the answer is `no`.  `inconclusive` only if the
+guard fails (`ball_verdict_total`). -/
 def ballVerdict (W : Mat) (c1 : Vec) (a1 : Rat) (c2 : Vec) (a2 : Rat) (t : Vec) : Verdict :=
   let m := c1.length
   if a1 < 0 || a2 < 0 || c2.length != m then .inconclusive else
@@ -138,7 +161,7 @@ def ballVerdict (W : Mat) (c1 : Vec) (a1 : Rat) (c2 : Vec) (a2 : Rat) (t : Vec) 
   | some (x, _) =>
     if normSq (vsub x delta) ≤ (a1 + a2) * (a1 + a2) then .yes else .no
   | none =>
-    match feasible m (coneSys W t) with
+    match feasibleC m (coneSys W t) with
     | some false => .no
     | _ => .inconclusive
 
